@@ -55,7 +55,6 @@ class Sc:
 
 
 class Vec:
-    __slots__ = ('back', 'idx', 'kind', 'dtype', 'unit', 'shape2', 'index', 'tz', 'name')
 
     def __init__(self, back, idx, kind='nd', dtype='f8', unit=None, index=None, tz=None):
         self.back = back
